@@ -123,9 +123,13 @@ class StagedView(Oracle):
         oid = oid_of(st)
         if st["kind"] != "mut" or not oid or st["op"] in ("purge", "resetall"):
             return []
-        v = self.view(ctx, oid)
-        if v is None:
-            return []
+        r0 = ctx.live.ask("staged %s" % hx(oid))
+        if not ok(r0):
+            if r0.startswith("err:notFound"):
+                return []
+            return ["after `%s` (%s) the staged object can no longer be opened: %s" % (
+                st["op"], resp.split(" ")[0], unhx(r0.split(" ")[1]).decode("utf8", "replace")[:200] if " " in r0 else r0)]
+        v = jbody(r0)
         self.checks += 1
         fails = []
         alg = v["alg"]
